@@ -618,13 +618,17 @@ class Constant(ValuePattern):
     def __init__(
         self,
         value: int | float | Sequence[int] | Sequence[float],
-        rel_tol: float = 1e-5,
-        abs_tol: float = 1e-8,
+        rel_tol: float | None = None,
+        abs_tol: float | None = None,
     ) -> None:
         super().__init__(None)
         self._value = list(value) if isinstance(value, Sequence) else value
-        self._rel_tol = rel_tol
-        self._abs_tol = abs_tol
+        # Integer literals (`x + 0`, `x * 1`, `[-1]`) are matched exactly: `x + 1e-9` is not `x + 0`.
+        # Float literals keep a tolerance, since they rarely have an exact binary representation.
+        values = self._value if isinstance(self._value, list) else [self._value]
+        exact = all(isinstance(v, int) for v in values)
+        self._rel_tol = (0.0 if exact else 1e-5) if rel_tol is None else rel_tol
+        self._abs_tol = (0.0 if exact else 1e-8) if abs_tol is None else abs_tol
 
     def clone(self, node_map: dict[NodePattern, NodePattern]) -> Constant:
         del node_map
